@@ -98,6 +98,8 @@ pub const CUBE_PATTERNS: &[&str] = &[
     "||tracker.co.uk^", "||co.uk^", "||example.com/foo/bar", "||ads.net:", "||ads.net?", "||ads.", "||1.2.3.4^", "||1.2.3.4/ads",
     // non-ASCII letters inside rule tokens
     "/\u{6587}ads^", "/\u{e9}/bar", "bar\u{e9}^", "||ads.net/\u{6587}ads",
+    // hostname anchor with an empty host text (the parser keeps an empty hostname)
+    "||*/foo/", "||/foo/bar", "||^foo^",
     // full regex and empty
     "/ads[a-z]*\\/bar/", "/^https?:\\/\\/ads\\./", "/\\/ADS/", "/ads[0-/", "*", "",
 ];
